@@ -205,7 +205,7 @@ impl Message {
     /// [`body_beve`](MessageBuilder::body_beve) over a `Vec<T>`.
     pub fn decode_typed_slice<T: beve::BeveTypedSlice>(&self) -> Result<Vec<T>, RepeError> {
         self.require_body_format(BodyFormat::Beve)?;
-        Ok(beve::read_typed_slice(&self.body)?)
+        read_typed_slice_body(&self.body)
     }
 
     /// Decode a BEVE complex-array body into a `Vec<Complex<T>>` via a single
@@ -218,7 +218,10 @@ impl Message {
         &self,
     ) -> Result<Vec<beve::Complex<T>>, RepeError> {
         self.require_body_format(BodyFormat::Beve)?;
-        Ok(beve::read_complex_slice(&self.body)?)
+        match beve::read_complex_slice(&self.body) {
+            Err(_) if is_empty_generic_array(&self.body) => Ok(Vec::new()),
+            other => Ok(other?),
+        }
     }
 
     /// `Ok(())` if the body's format matches `expected`, else
@@ -236,6 +239,30 @@ impl Message {
                 got: self.header.body_format,
             })
         }
+    }
+}
+
+/// `true` if `body` is BEVE's generic (untyped) array of length zero.
+///
+/// serde cannot know the element type of an empty sequence, so the generic
+/// encoder (`body_beve(&Vec::<T>::new())`, or any serde client or server
+/// response) emits every empty numeric or complex vector as this two-byte
+/// untyped array rather than as a typed array of `T`. The bulk decoders must
+/// read it as the empty `Vec<T>` it is, or the generic and bulk paths stop
+/// interoperating exactly at length zero.
+pub(crate) fn is_empty_generic_array(body: &[u8]) -> bool {
+    // Header byte 0x05 = generic array; compressed size 0x00 = zero elements.
+    body == [0x05, 0x00]
+}
+
+/// Decode a BEVE typed-numeric-array body, accepting the generic encoding of an
+/// empty vector (see [`is_empty_generic_array`]) in addition to a typed array of `T`.
+pub(crate) fn read_typed_slice_body<T: beve::BeveTypedSlice>(
+    body: &[u8],
+) -> Result<Vec<T>, RepeError> {
+    match beve::read_typed_slice(body) {
+        Err(_) if is_empty_generic_array(body) => Ok(Vec::new()),
+        other => Ok(other?),
     }
 }
 
